@@ -71,7 +71,12 @@ def pattern_to_float(size, pattern):
     return struct.unpack(fmt, pattern.to_bytes(size // 8, "big"))[0]
 
 
-def observe_decode(fr, data, api="decode", at=False, ae=False, db=None):
+def observe_decode(fr, data, api="decode", at=False, ae=False, db=None, _again=True):
+    """the same call is made twice on the same objects: a result that depends on what was decoded before is reported as an error"""
+    if _again:
+        first = observe_decode(fr, data, api, at, ae, db, _again=False)
+        second = observe_decode(fr, data, api, at, ae, db, _again=False)
+        return first if first == second else {"err": "exc:result-differs-when-repeated"}
     try:
         if api == "unpack":
             d = fr.unpack(bytes(data), allow_truncated=at, allow_exceeded=ae)
@@ -92,7 +97,11 @@ def observe_decode(fr, data, api="decode", at=False, ae=False, db=None):
     return {"ok": out}
 
 
-def observe_encode(fr, data_pairs):
+def observe_encode(fr, data_pairs, _again=True):
+    if _again:
+        first = observe_encode(fr, data_pairs, _again=False)
+        second = observe_encode(fr, data_pairs, _again=False)
+        return first if first == second else {"err": "exc:result-differs-when-repeated"}
     data = {}
     for k, v in data_pairs:
         s = fr.signal_by_name(k)
